@@ -171,6 +171,26 @@ fn ordered(v: &SortCase, rep: &mut Rep) -> Result<(), String> {
                 rep.label("capped_at_reception");
             }
             _ => {
+                // everything that is no control request goes by its calculated time: other message types, control responses,
+                // control messages with the other (reserved) type values, messages without extended header
+                match e.extra % 8 {
+                    4 => {
+                        let mtin = [0u8, 2, 3, 4, 7, 15][(e.extra as usize / 8) % 6];
+                        m.extended_header.as_mut().unwrap().verb_mstp_mtin = (3 << 1) | (mtin << 4) | (e.extra as u8 / 64 % 2);
+                        rep.label("control_message_that_is_no_request");
+                    }
+                    5 => {
+                        m.extended_header = None;
+                        m.standard_header.htyp = 0x30;
+                    }
+                    6 => m.extended_header.as_mut().unwrap().verb_mstp_mtin = (((e.extra / 8) % 3) as u8) << 1 | 0x10 | (e.extra as u8 / 64 % 2),
+                    7 => m.extended_header.as_mut().unwrap().verb_mstp_mtin = (((e.extra / 8) % 8) as u8) << 1 | ((e.extra / 64 % 16) as u8) << 4,
+                    _ => {}
+                }
+                if m.is_ctrl_request() {
+                    // (type 3, info 1 out of the arbitrary combinations)
+                    m.extended_header.as_mut().unwrap().verb_mstp_mtin = 0x41;
+                }
                 if clock < start {
                     m.timestamp_dms = 0; // start > reception -> capped
                     calc = clock;
@@ -241,7 +261,7 @@ pub fn def(tier: Tier) -> PropertyDef {
         rule: "A (permutation): messy traces with lifecycle ids/table from the real detector or arbitrary ids (known, 0, unknown) against a table of real Lifecycle values, window 1..10 s, min delay 0..60 s; output must be a permutation (whole-message equality). B (ordering): 1..5 lifecycles on 1..3 ECUs with known starts, non-decreasing reception clock, per message a delay in [0, min delay] (all times multiples of 0.1 ms so the bound holds exactly), control requests and messages whose start+timestamp exceeds the reception time (capped); output ordered by (calculated time, input index). Non-trivial (B): >=2 lifecycles used and >=1 inversion in the input.",
         assumptions: vec!["calculated time recomputed by the harness from the statement: min(lifecycle start + timestamp, reception); reception for control requests", "input indices increase in input order (as every producer in adlt numbers them)"],
         subs: vec![
-            sub("ordered_under_bound", tier.pick(600_000, 8_000_000), sort_case(60), ordered).rates(&[("input_inverted", 0.3), ("ge2_lifecycles", 0.3), ("capped_at_reception", 0.2), ("control_request", 0.2), ("delayed_message", 0.4), ("released_before_end_of_input", 0.1)]).boxed(),
+            sub("ordered_under_bound", tier.pick(600_000, 8_000_000), sort_case(60), ordered).rates(&[("input_inverted", 0.3), ("ge2_lifecycles", 0.3), ("capped_at_reception", 0.2), ("control_request", 0.2), ("control_message_that_is_no_request", 0.2), ("delayed_message", 0.4), ("released_before_end_of_input", 0.1)]).boxed(),
             sub("ordered_long", tier.pick(30_000, 400_000), sort_case(600), ordered).boxed(),
             sub("permutation_any_input", tier.pick(400_000, 5_000_000), (prop::collection::vec(ev(3), 0..80), 1u8..=10, prop_oneof![Just(0u32), 0u32..600_000], prop::collection::vec(any::<u16>(), 0..8), any::<bool>()), any_input)
                 .rates(&[("table_from_detector", 0.3), ("arbitrary_ids", 0.3)])
